@@ -9,7 +9,7 @@ from typing import Dict, FrozenSet, List, Optional, Set, Tuple
 from oqv.astutil import branch_context, call_name, method_call
 from oqv.cfg import CFG
 from oqv.dataflow import DefUse, names_loaded
-from oqv.model import AnalysisError, Program, Unit, dotted, norm, walk_local
+from oqv.model import AnalysisError, Program, Unit, dotted, norm, walk_local, kw_of
 from oqv.report import Check
 
 NORTH, WEST = "NORTH", "WEST"
@@ -449,7 +449,7 @@ def r2(prog: Program, chk: Check) -> None:
               and (dotted(c.func) or "").split(".")[-1] in ("isclose", "allclose")]
     if closes:
         for c in closes:
-            kw = {k.arg: k.value for k in c.keywords}
+            kw = kw_of(c)
             rtol = kw.get("rtol", c.args[2] if len(c.args) > 2 else None)
             rtol0 = isinstance(rtol, ast.Constant) and rtol.value == 0
             whole_rows = (dotted(c.func) or "").endswith("allclose") or any(
@@ -469,7 +469,7 @@ def r2(prog: Program, chk: Check) -> None:
     if len(calls) != 1:
         raise AnalysisError("R2: np.unique call vanished")
     c = calls[0]
-    kw = {k.arg: k.value for k in c.keywords}
+    kw = kw_of(c)
     ok_axis = isinstance(kw.get("axis"), ast.Constant) and kw["axis"].value == 0
     ok_inv = isinstance(kw.get("return_inverse"), ast.Constant) and kw["return_inverse"].value is True
     a0 = c.args[0]
